@@ -824,6 +824,112 @@ fn invalid_cases(rng: &mut Rng) -> Vec<(Case, &'static str)> {
     v
 }
 
+// ------------------------------------------------------------------------------------------
+// api_trait_twin: fit / predict through `smartcore::api::{SupervisedEstimator, Predictor}` give exactly
+// what the inherent methods give (training matrix and fresh rows, model fitted either way); under the
+// watchdog (a fit that does not return is the business of the other oracles: counted, not judged here)
+// ------------------------------------------------------------------------------------------
+fn twin_rows(c: &Case) -> Vec<Vec<f64>> {
+    let mut r = Rng::new(case_key(c) ^ 0x7717);
+    if c.x.is_empty() || c.x[0].is_empty() {
+        return vec![];
+    }
+    (0..3).map(|_| { let row = r.pick(&c.x).clone(); row.iter().map(|v| v * r.uniform(0.5, 1.5) + 0.1 * r.normal()).collect() }).collect()
+}
+/// None = watchdog
+fn twin_case(c: &Case, xnew: &[Vec<f64>]) -> Option<Option<twin::Diff>> {
+    if c.x.is_empty() || c.x[0].is_empty() || xnew.is_empty() {
+        return Some(None);
+    }
+    let c = c.clone();
+    let xnew = xnew.to_vec();
+    let r = with_watchdog(if timeouts() >= 3 { 6 } else { 2 * WATCHDOG_SECS }, move || {
+        let x = dense(&c.x);
+        let xn = dense(&xnew);
+        let y = c.y.clone();
+        let probes = [("the training matrix", &x), ("the fresh rows", &xn)];
+        macro_rules! run {
+            ($ty:ty, $p:expr) => {{
+                let p = $p;
+                twin::check(
+                    "SupervisedEstimator",
+                    "Predictor",
+                    "predict",
+                    || twin::fit_sup::<$ty, _, _, _>(&x, &y, p.clone()),
+                    || <$ty>::fit(&x, &y, p.clone()),
+                    |m: &$ty, z: &DenseMatrix<f64>| twin::predict(m, z),
+                    |m: &$ty, z: &DenseMatrix<f64>| m.predict(z),
+                    &probes,
+                    |m: &$ty| serde_json::to_string(m).unwrap_or_default(),
+                    true,
+                )
+            }};
+        }
+        let d = if c.enet {
+            run!(ElasticNet<f64, DenseMatrix<f64>>, ElasticNetParameters { alpha: c.alpha, l1_ratio: c.l1_ratio, normalize: c.normalize, tol: c.tol, max_iter: c.max_iter })
+        } else {
+            run!(Lasso<f64, DenseMatrix<f64>>, LassoParameters { alpha: c.alpha, normalize: c.normalize, tol: c.tol, max_iter: c.max_iter })
+        };
+        VERIF_LASSO_RUNS.with(|r| r.borrow_mut().clear());
+        d
+    });
+    match r {
+        None => {
+            TIMEOUTS.fetch_add(1, std::sync::atomic::Ordering::SeqCst);
+            None
+        }
+        Some(Err(msg)) => Some(Some(twin::Diff { call: "harness".into(), what: format!("the twin comparison itself panicked: {}", msg) })),
+        Some(Ok(d)) => Some(d),
+    }
+}
+fn check_twin(out: &mut Out, c: &Case, family: &str) {
+    if timeouts() >= MAX_TIMEOUTS {
+        out.count("search:skipped-after-8-timeouts");
+        return;
+    }
+    out.eval(case_key(c) ^ 0x7717, true);
+    out.count(&format!("twin:{}:{}", if c.enet { "enet" } else { "lasso" }, family));
+    let xnew = twin_rows(c);
+    match twin_case(c, &xnew) {
+        None => out.count("twin:watchdog(not judged)"),
+        Some(None) => {}
+        Some(Some(_)) => {
+            // shrink: fewer fresh rows, fewer training rows
+            let (mut cur, mut xn) = (c.clone(), xnew);
+            let mut progress = true;
+            let mut budget = 200;
+            while progress && budget > 0 {
+                progress = false;
+                let mut i = 0;
+                while xn.len() > 1 && i < xn.len() && budget > 0 {
+                    let mut t = xn.clone();
+                    t.remove(i);
+                    budget -= 1;
+                    if matches!(twin_case(&cur, &t), Some(Some(_))) { xn = t; progress = true; } else { i += 1; }
+                }
+                let mut i = 0;
+                while cur.x.len() > 2 && i < cur.x.len() && budget > 0 {
+                    let mut t = cur.clone();
+                    t.x.remove(i);
+                    if i < t.y.len() {
+                        t.y.remove(i);
+                    }
+                    budget -= 1;
+                    if matches!(twin_case(&t, &xn), Some(Some(_))) { cur = t; progress = true; } else { i += 1; }
+                }
+            }
+            if let Some(Some(d)) = twin_case(&cur, &xn) {
+                let mut w = case_json(&cur, "twin");
+                w["oracle"] = json!(twin::ORACLE);
+                w["xnew"] = json!(xn);
+                w["differing_call"] = json!(d.call);
+                out.count(&format!("twin:failing:{}", if c.enet { "ElasticNet" } else { "Lasso" }));
+                out.fail(twin::ORACLE, &format!("{}: {}: {}", if c.enet { "ElasticNet" } else { "Lasso" }, d.call, d.what), w);
+            }
+        }
+    }
+}
+
 fn replay(path: &str) -> i32 {
     let v = read_replay(path);
     let inp = if v.get("input").is_some() { v["input"].clone() } else { v.clone() };
@@ -843,6 +949,13 @@ fn replay(path: &str) -> i32 {
         }
     }
     let fails = match inp["entry"].as_str().unwrap_or("fit") {
+        "twin" => {
+            let xnew = if inp.get("xnew").is_some() { rows_from_json(&inp["xnew"]) } else { twin_rows(&c) };
+            match twin_case(&c, &xnew) {
+                Some(Some(d)) => vec![Fail { oracle: twin::ORACLE, what: format!("{}: {}", d.call, d.what) }],
+                _ => vec![],
+            }
+        }
         "invalid" => evaluate_invalid(&c),
         "budget" => evaluate_budget(&c),
         "alpha-zero" | "large-scale" => {
@@ -929,7 +1042,7 @@ fn main() {
     }
     let mut out = Out::new(
         "C08",
-        "search case = (X, y, alpha, tol, normalize[, l1_ratio][, shift]) fitted by Lasso / ElasticNet under a watchdog; non-trivial: 0.02*alpha_max < alpha < alpha_max (penalty active, not all coefficients zero); distinct by hash of all inputs",
+        "search case = (X, y, alpha, tol, normalize[, l1_ratio][, shift]) fitted by Lasso / ElasticNet under a watchdog; non-trivial: 0.02*alpha_max < alpha < alpha_max (penalty active, not all coefficients zero); distinct by hash of all inputs. api-trait twin case = a search case fitted and queried through smartcore::api::{SupervisedEstimator, Predictor} and through the inherent methods; all results must coincide bit for bit",
     );
 
     // ---- corpus: D8 (elastic net, shifted targets) on the design-round input shape ----
@@ -1297,6 +1410,16 @@ fn main() {
             out.count(&format!("search:invalid:{}", what));
             let fails = evaluate_invalid(&c);
             record(&mut out, &c, fails, "invalid");
+        }
+    }
+    // ---- api-trait twins (last: the streams of the sections above are unchanged) ----
+    for i in 0..(if a.thorough { 600 } else { 80 }) {
+        let c = gen_case(&mut rng, 30, 6, i % 2 == 1, false);
+        check_twin(&mut out, &c, "random");
+    }
+    for _ in 0..(if a.thorough { 10 } else { 2 }) {
+        for (c, _) in invalid_cases(&mut rng) {
+            check_twin(&mut out, &c, "invalid-settings");
         }
     }
     out.set("near_optimal_evidence", json!({
